@@ -257,6 +257,10 @@ pub struct StoreElem {
     /// Clock released by this store (zero if nothing is released).
     pub rel: VClock,
     pub sc: bool,
+    /// Index+1 of this store's event in the SeqCst order graph (0 = not a SeqCst store).
+    pub sc_ev: u32,
+    /// SeqCst load events (indices in the graph) that read this store.
+    pub sc_readers: Vec<u32>,
     /// Per thread: timestamp of the latest load of that thread which read this store (0 = none).
     pub loads: [u32; MAX_THREADS],
     pub sc_loaded: bool,
@@ -271,6 +275,41 @@ pub struct Loc {
     pub stores: Vec<StoreElem>,
     /// Number of stores dropped from the front of `stores` (so absolute mo index = dropped + i).
     pub dropped: u64,
+    /// SeqCst events (stores, and loads of stores) that fell out of the bounded history: they all
+    /// precede, in S, every later SeqCst access to this location.
+    pub sc_dropped: Vec<u32>,
+}
+
+pub const SC_WORDS: usize = 32;
+pub const SC_MAX: usize = SC_WORDS * 64;
+type ScSet = [u64; SC_WORDS];
+
+/// The constraints on the single total order S of SeqCst operations, kept as a DAG with
+/// predecessor closures: `pred[i]` = every event that must precede event i ([atomics.order]p4:
+/// happens-before between SeqCst operations, and coherence-ordered-before between SeqCst
+/// operations on one object). S itself is never fixed; a stale SeqCst read is allowed exactly
+/// when the edges it implies keep the graph acyclic.
+#[derive(Default)]
+pub struct ScGraph {
+    evs: Vec<(Tid, u32)>,
+    pred: Vec<ScSet>,
+    by_thread: Vec<Vec<u32>>,
+    pub overflow: bool,
+}
+
+#[inline]
+fn sc_bit(set: &ScSet, i: usize) -> bool {
+    set[i / 64] & (1u64 << (i % 64)) != 0
+}
+#[inline]
+fn sc_set(set: &mut ScSet, i: usize) {
+    set[i / 64] |= 1u64 << (i % 64);
+}
+#[inline]
+fn sc_or(a: &mut ScSet, b: &ScSet) {
+    for w in 0..SC_WORDS {
+        a[w] |= b[w];
+    }
 }
 
 #[derive(Clone, Copy, PartialEq, Eq, Debug)]
@@ -466,6 +505,7 @@ pub struct Runtime {
     current: Tid,
     epoch: u32,
     locs: Vec<Loc>,
+    scg: ScGraph,
     sems: Vec<Sem>,
     pub stats: Stats,
     failure: Option<Failure>,
@@ -612,6 +652,7 @@ pub fn run(spec: RunSpec, main: Box<dyn FnOnce()>) -> Outcome {
         current: 0,
         epoch,
         locs: Vec::with_capacity(128),
+        scg: ScGraph::default(),
         sems: Vec::new(),
         stats: Stats::default(),
         failure: None,
@@ -1636,11 +1677,14 @@ fn loc_index(rt: &mut Runtime, meta: &std::sync::atomic::AtomicU64, hint: u32, c
             ts: 0,
             rel: VClock::ZERO,
             sc: false,
+            sc_ev: 0,
+            sc_readers: Vec::new(),
             loads: [0; MAX_THREADS],
             sc_loaded: false,
             ev: 0,
         }],
         dropped: 0,
+        sc_dropped: Vec::new(),
     });
     let idx = rt.locs.len();
     meta.store(((rt.epoch as u64) << 32) | idx as u64, Ordering::Relaxed);
@@ -1657,6 +1701,8 @@ pub fn forget(meta: &std::sync::atomic::AtomicU64) {
 struct Pick {
     idx: usize,
     stale_by: usize,
+    /// For a SeqCst load in weak mode: (event index, happens-before closure, closure to commit).
+    sc: Option<(usize, ScSet, ScSet)>,
 }
 
 impl Runtime {
@@ -1672,20 +1718,47 @@ impl Runtime {
     fn choose_store(&mut self, li: usize, sc_load: bool, allow_stale: bool) -> Pick {
         let t = self.current;
         let clock = self.threads[t].clock;
-        let stores = &self.locs[li].stores;
-        let len = stores.len();
-        if self.cfg.mode == MemMode::Sc || !allow_stale || len == 1 || self.probe.is_some() {
+        let len = self.locs[li].stores.len();
+        if self.cfg.mode == MemMode::Sc {
             return Pick {
                 idx: len - 1,
                 stale_by: 0,
+                sc: None,
             };
         }
+        // SeqCst load in weak mode: an event in the S graph. What happens-before it depends on the
+        // store it reads (a SeqCst load acquires), so the closure is computed per candidate.
+        let sc_ctx: Option<(usize, ScSet)> = if sc_load {
+            self.sc_alloc().map(|k| (k, [0u64; SC_WORDS]))
+        } else {
+            None
+        };
+        let fresh_only = !allow_stale || len == 1 || self.probe.is_some();
         // Walk from the newest store towards older ones; stop after the first store that the
-        // coherence / SC rules make the oldest admissible one.
+        // coherence rules make the oldest admissible one. SeqCst loads additionally need the S
+        // graph to stay acyclic (checked per candidate).
+        let mut cands: [usize; 16] = [0; 16];
+        let mut pcs: Vec<ScSet> = Vec::new();
         let mut n_adm = 0;
         for i in (0..len).rev() {
-            n_adm += 1;
-            let s = &stores[i];
+            let mut ok = true;
+            if let Some((k, _)) = &sc_ctx {
+                let mut c = clock;
+                c.join(&self.locs[li].stores[i].rel);
+                let hb_pc = self.sc_closure_for(&c, *k);
+                match self.sc_read_admissible(li, i, &hb_pc) {
+                    Some(pc) => pcs.push(pc),
+                    None => ok = false,
+                }
+            }
+            if ok && n_adm < 16 {
+                cands[n_adm] = i;
+                n_adm += 1;
+            }
+            if fresh_only {
+                break;
+            }
+            let s = &self.locs[li].stores[i];
             if s.writer == NO_TID || s.ts <= clock.get(s.writer) {
                 break; // the store happens-before this load (CoWR)
             }
@@ -1700,8 +1773,21 @@ impl Runtime {
             if blocked {
                 break;
             }
-            if sc_load && (s.sc || s.sc_loaded) {
-                break;
+            if sc_load && sc_ctx.is_none() && (s.sc || s.sc_loaded) {
+                break; // S graph unavailable (overflow): S = execution order
+            }
+        }
+        if n_adm == 0 {
+            // cannot happen (the latest store is always admissible); be safe
+            cands[0] = len - 1;
+            n_adm = 1;
+            if let Some((k, _)) = &sc_ctx {
+                let mut c = clock;
+                c.join(&self.locs[li].stores[len - 1].rel);
+                let mut pc = self.sc_closure_for(&c, *k);
+                self.sc_collect_preds(li, len - 1, &mut pc);
+                pcs.clear();
+                pcs.push(pc);
             }
         }
         if n_adm as u64 > self.stats.max_admissible {
@@ -1715,9 +1801,42 @@ impl Runtime {
                 1 + rng.below(n_adm as u64 - 1) as usize
             }
         });
+        let idx = cands[k];
         Pick {
-            idx: len - 1 - k,
-            stale_by: k,
+            idx,
+            stale_by: len - 1 - idx,
+            sc: sc_ctx.map(|(ev, hb_pc)| (ev, hb_pc, pcs[k])),
+        }
+    }
+
+    /// A SeqCst load of store `idx` outside `choose_store` (spurious CAS failure).
+    fn sc_simple_read(&mut self, li: usize, idx: usize) {
+        if self.cfg.mode != MemMode::Weak {
+            return;
+        }
+        if let Some(k) = self.sc_alloc() {
+            let mut c = self.threads[self.current].clock;
+            c.join(&self.locs[li].stores[idx].rel);
+            let mut pc = self.sc_closure_for(&c, k);
+            self.sc_collect_preds(li, idx, &mut pc);
+            self.sc_commit_read(li, idx, k, pc);
+        }
+    }
+
+    /// Finalises the read of a pick (commits the S edges of a SeqCst load). `idx` may differ from
+    /// the picked one when the caller had to fall back to the latest store.
+    fn finish_read(&mut self, li: usize, idx: usize, pick: &Pick) {
+        if let Some((k, hb_pc, pc)) = &pick.sc {
+            let _ = hb_pc;
+            if idx == pick.idx {
+                self.sc_commit_read(li, idx, *k, *pc);
+            } else {
+                let mut c = self.threads[self.current].clock;
+                c.join(&self.locs[li].stores[idx].rel);
+                let mut p = self.sc_closure_for(&c, *k);
+                self.sc_collect_preds(li, idx, &mut p);
+                self.sc_commit_read(li, idx, *k, p);
+            }
         }
     }
 
@@ -1809,8 +1928,36 @@ impl Runtime {
     }
 
     fn push_store(&mut self, li: usize, val: usize, t: Tid, ts: u32, rel: VClock, sc: bool) -> i64 {
+        self.push_store_ev(li, val, t, ts, rel, sc, None)
+    }
+
+    /// `reuse`: an S-graph event already created for this operation (the load half of a
+    /// compare-exchange that turned out to succeed).
+    #[allow(clippy::too_many_arguments)]
+    fn push_store_ev(&mut self, li: usize, val: usize, t: Tid, ts: u32, rel: VClock, sc: bool, reuse: Option<usize>) -> i64 {
         let ev = self.event_no + 1;
         let hist = self.cfg.history.max(1);
+        // SeqCst store: one event in the S graph, after every earlier SeqCst access to the
+        // location (mo, and reads-before for the loads of earlier stores).
+        let sc_ev = if sc && self.cfg.mode == MemMode::Weak {
+            let ev = match reuse {
+                Some(k) => {
+                    let clock = self.threads[self.current].clock;
+                    Some((k, self.sc_closure_for(&clock, k)))
+                }
+                None => self.sc_new_event(),
+            };
+            match ev {
+                Some((k, mut pc)) => {
+                    self.sc_collect_preds(li, usize::MAX, &mut pc);
+                    self.scg.pred[k] = pc;
+                    k as u32 + 1
+                }
+                None => 0,
+            }
+        } else {
+            0
+        };
         let loc = &mut self.locs[li];
         let mut loads = [0u32; MAX_THREADS];
         loads[t] = ts; // the writer "has seen" its own store
@@ -1820,15 +1967,158 @@ impl Runtime {
             ts,
             rel,
             sc,
+            sc_ev,
+            sc_readers: Vec::new(),
             loads,
             sc_loaded: false,
             ev,
         });
         while loc.stores.len() > hist {
-            loc.stores.remove(0);
+            let old = loc.stores.remove(0);
+            if old.sc_ev != 0 {
+                loc.sc_dropped.push(old.sc_ev - 1);
+            }
+            loc.sc_dropped.extend(old.sc_readers.iter().copied());
+            if loc.sc_dropped.len() > 64 {
+                // keep only the most recent ones: older ones are in their closures already
+                // whenever they are ordered at all; dropping more only loses constraints, which
+                // the certificate of a reported execution re-checks from the full event log
+                let n = loc.sc_dropped.len();
+                loc.sc_dropped.drain(0..n - 64);
+            }
             loc.dropped += 1;
         }
         (loc.dropped + loc.stores.len() as u64 - 1) as i64
+    }
+
+    /// A new SeqCst event of the current thread (its clock already ticked and, for an acquiring
+    /// operation, already joined with what it acquires). Returns its index and the closure of the
+    /// SeqCst events that happen-before it.
+    fn sc_new_event(&mut self) -> Option<(usize, ScSet)> {
+        let k = self.sc_alloc()?;
+        let clock = self.threads[self.current].clock;
+        Some((k, self.sc_closure_for(&clock, k)))
+    }
+
+    fn sc_alloc(&mut self) -> Option<usize> {
+        if self.scg.overflow || self.scg.evs.len() >= SC_MAX {
+            self.scg.overflow = true;
+            return None;
+        }
+        let t = self.current;
+        let ts = self.threads[t].clock.get(t);
+        let k = self.scg.evs.len();
+        if self.scg.by_thread.len() < MAX_THREADS {
+            self.scg.by_thread.resize(MAX_THREADS, Vec::new());
+        }
+        self.scg.evs.push((t, ts));
+        self.scg.pred.push([0; SC_WORDS]);
+        self.scg.by_thread[t].push(k as u32);
+        Some(k)
+    }
+
+    /// Closure of the SeqCst events (other than `me`) that happen-before a point with `clock`.
+    fn sc_closure_for(&self, clock: &VClock, me: usize) -> ScSet {
+        let mut pc: ScSet = [0; SC_WORDS];
+        for u in 0..MAX_THREADS.min(self.scg.by_thread.len()) {
+            // the latest SeqCst event of thread u that happens-before (earlier ones of u are in
+            // its closure)
+            let lim = clock.get(u);
+            if lim == 0 {
+                continue;
+            }
+            for &a in self.scg.by_thread[u].iter().rev() {
+                let a = a as usize;
+                if a != me && self.scg.evs[a].1 <= lim {
+                    let pa = self.scg.pred[a];
+                    sc_or(&mut pc, &pa);
+                    sc_set(&mut pc, a);
+                    break;
+                }
+            }
+        }
+        pc
+    }
+
+    /// Adds to `pc` the closure of the SeqCst events that are coherence-ordered before a SeqCst
+    /// access reading store `idx` of location `li` (`usize::MAX`: a new store at the mo end).
+    fn sc_collect_preds(&self, li: usize, idx: usize, pc: &mut ScSet) {
+        let loc = &self.locs[li];
+        let mut add = |e: u32, pc: &mut ScSet| {
+            let e = e as usize;
+            if e < self.scg.pred.len() {
+                let pe = self.scg.pred[e];
+                sc_or(pc, &pe);
+                sc_set(pc, e);
+            }
+        };
+        for e in loc.sc_dropped.iter() {
+            add(*e, pc);
+        }
+        for (j, st) in loc.stores.iter().enumerate() {
+            if idx != usize::MAX && j > idx {
+                break;
+            }
+            if st.sc_ev != 0 {
+                add(st.sc_ev - 1, pc); // mo (and rf when j == idx)
+            }
+            if idx == usize::MAX || j < idx {
+                for r in st.sc_readers.iter() {
+                    add(*r, pc); // that load reads-before every later store
+                }
+            }
+        }
+    }
+
+    /// Would a SeqCst load with happens-before closure `hb_pc` reading store `idx` keep the S
+    /// graph acyclic? Returns the predecessor closure to commit if so.
+    fn sc_read_admissible(&self, li: usize, idx: usize, hb_pc: &ScSet) -> Option<ScSet> {
+        let mut pc = *hb_pc;
+        self.sc_collect_preds(li, idx, &mut pc);
+        let loc = &self.locs[li];
+        for st in loc.stores.iter().skip(idx + 1) {
+            if st.sc_ev != 0 && sc_bit(&pc, (st.sc_ev - 1) as usize) {
+                return None; // the load would have to precede a store that must precede it
+            }
+            for r in st.sc_readers.iter() {
+                if sc_bit(&pc, *r as usize) {
+                    return None;
+                }
+            }
+        }
+        Some(pc)
+    }
+
+    /// Commits a SeqCst load (event k, predecessor closure pc) of store `idx`.
+    fn sc_commit_read(&mut self, li: usize, idx: usize, k: usize, pc: ScSet) {
+        self.scg.pred[k] = pc;
+        let mut pck = pc;
+        sc_set(&mut pck, k);
+        // successors: later SeqCst stores of the location and SeqCst loads of later stores
+        let mut succ: Vec<usize> = Vec::new();
+        for st in self.locs[li].stores.iter().skip(idx + 1) {
+            if st.sc_ev != 0 {
+                succ.push((st.sc_ev - 1) as usize);
+            }
+            succ.extend(st.sc_readers.iter().map(|r| *r as usize));
+        }
+        if !succ.is_empty() {
+            let n = self.scg.pred.len();
+            for q in succ {
+                if q == k || q >= n {
+                    continue;
+                }
+                sc_or(&mut self.scg.pred[q], &pck);
+                for w in 0..n {
+                    if w != q && sc_bit(&self.scg.pred[w], q) {
+                        let mut pw = self.scg.pred[w];
+                        sc_or(&mut pw, &pck);
+                        self.scg.pred[w] = pw;
+                    }
+                }
+            }
+        }
+        self.locs[li].stores[idx].sc_readers.push(k as u32);
     }
 }
 
@@ -1848,6 +2138,7 @@ pub(crate) fn atomic_load(
     let li = loc_index(rt, meta, hint, mirror, is_ptr);
     let (t, ts) = rt.tick();
     let pick = rt.choose_store(li, is_sc(ord), true);
+    rt.finish_read(li, pick.idx, &pick);
     let s = &mut rt.locs[li].stores[pick.idx];
     s.loads[t] = ts;
     if is_sc(ord) {
@@ -1981,6 +2272,9 @@ pub(crate) fn atomic_cas(
         if rt.decide(DecKind::Spurious, 2, |rng, _| rng.chance256(p) as usize) == 1 {
             rt.threads[t].spurious_last = true;
             rt.stats.spurious_cas += 1;
+            if is_sc(fail_ord) {
+                rt.sc_simple_read(li, last);
+            }
             let s = &mut rt.locs[li].stores[last];
             s.loads[t] = ts;
             if is_sc(fail_ord) {
@@ -2001,6 +2295,7 @@ pub(crate) fn atomic_cas(
     let pick = rt.choose_store(li, is_sc(fail_ord), true);
     let pv = rt.locs[li].stores[pick.idx].val;
     if pv != expected {
+        rt.finish_read(li, pick.idx, &pick);
         let s = &mut rt.locs[li].stores[pick.idx];
         s.loads[t] = ts;
         if is_sc(fail_ord) {
@@ -2018,6 +2313,7 @@ pub(crate) fn atomic_cas(
     }
     if latest_val != expected {
         // The picked (older) store equals `expected` but the latest does not: read the latest.
+        rt.finish_read(li, last, &pick);
         let s = &mut rt.locs[li].stores[last];
         s.loads[t] = ts;
         if is_sc(fail_ord) {
@@ -2044,7 +2340,22 @@ pub(crate) fn atomic_cas(
         rt.threads[t].rel_fence
     };
     rel.join(&read_rel);
-    let mo = rt.push_store(li, new, t, ts, rel, is_sc(succ));
+    // the load half may already have allocated this operation's event in the S graph
+    let reuse = pick.sc.as_ref().map(|(k, _, _)| *k);
+    let mo = if is_sc(succ) {
+        rt.push_store_ev(li, new, t, ts, rel, true, reuse)
+    } else {
+        if let Some(k) = reuse {
+            // (SeqCst failure ordering with a weaker success ordering: the event stays a pure
+            // load of the latest store)
+            let mut c = rt.threads[t].clock;
+            c.join(&read_rel);
+            let mut pc = rt.sc_closure_for(&c, k);
+            rt.sc_collect_preds(li, last, &mut pc);
+            rt.sc_commit_read(li, last, k, pc);
+        }
+        rt.push_store(li, new, t, ts, rel, false)
+    };
     mirror(new);
     rt.log_event(OpK::CasOk, li, succ, rf, mo, new, expected, 0, site);
     Ok(expected)
